@@ -108,6 +108,26 @@ def spec(c, r, exact_budget):
     return None
 
 
+def spec_exact_long(c, r):
+    """the exact-curve clause of spec for records longer than the budgeted 260 days"""
+    c2 = dict(c, kind="random")
+    n = len(c2["template"])
+    w = [Fraction(int(v)) for v in c2["template"]]
+    temp = [Fraction(0)] * n
+    j = 0
+    for i in range(n):
+        if w[i]:
+            temp[i] = Fraction(c2["x"][j])
+            j += 1
+    temp[-1] = Fraction(c2["x"][-1])
+    z = wc.pls_exact(temp, w, Fraction(1, 100000))
+    for (s, e), o in zip(run_bounds(c2["labels"]), r["out"]):
+        m = sum(z[s:e]) / (e - s)
+        if o != wc.rne(m) and not (wc.near_tie(m, Fraction(1, 10 ** 5)) and abs(o - wc.rne(m)) <= 1):
+            return "period %d..%d: exact mean of the daily curve is %.6f, output %d" % (s, e - 1, float(m), o)
+    return None
+
+
 def run(ctx):
     ctx.proofs(["Props/C20.v"])
     rng = np.random.default_rng(ctx.seed)
@@ -132,7 +152,7 @@ def run(ctx):
     if res is None:
         ctx.violation("implementation run failed", dict(kind="impl-crash", log=log[-3000:]), found_input=False)
         return
-    spec_fail, coq, meta = [], [], []
+    spec_fail, coq, meta, kept = [], [], [], []
     dist = dict(kinds={}, spacings={}, labelings={}, max_days=0, max_obs=0, exact_checked=0, accessor=0, wrapping_labels=0)
     budget = 40 if ctx.thorough else 14
     for c, r in zip(cases, res):
@@ -160,6 +180,7 @@ def run(ctx):
         nruns = len(run_bounds(c["labels"]))
         coq.append("TC %s %s %s %s" % (zlist(c["x"]), flist(c["template"]), zlist(c["labels"]), zlist(r["out"][:nruns])))
         meta.append(m)
+        kept.append((c, r))
     r1 = core.eval_cases("C20", "t", PRE, coq, "check_t", shard=6, scope="Z")
     r2 = core.eval_cases("C20", "claim", PRE, coq, "claim_t", shard=6, scope="Z")
     ctx.cov["evaluations"] = len(coq)
@@ -180,6 +201,17 @@ def run(ctx):
         m, why = spec_fail[0]
         ctx.violation(why, dict(kind="spec", case=m, n_failing=len(spec_fail)))
     elif r1["failing"]:
+        # the correspondence broke: hold the disagreeing cases (smallest first) against the exact rational daily curve, without the budget
+        import time
+        t0 = time.time()
+        for i in sorted(r1["failing"], key=lambda i: meta[i]["ndays"]):
+            c, r = kept[i]
+            if len(c["template"]) > 700 or time.time() - t0 > 240:
+                break
+            why = spec(dict(c, template=c["template"][:]), r, True) if len(c["template"]) <= 260 else spec_exact_long(c, r)
+            if why:
+                ctx.violation(why, dict(kind="spec", case=dict(meta[i], x=c["x"], pos=c["pos"], labels=c["labels"], out=r["out"]), n_failing=1))
+                return
         bad = sorted((meta[i] for i in r1["failing"]), key=lambda m: m["ndays"])
         ctx.violation("model and implementation disagree (Corr/C20.v check_t, bit-exact); constant / linear exactness, output count, purity "
                       "and the exact-curve sample hold", dict(kind="correspondence", correspondence="Corr/C20.v check_t", case=bad[0],
